@@ -153,8 +153,15 @@ def run(run):
         specs.append([q, None, None]) if quick else specs.append([q, None, None, None])
     specs += [['`', '"', None, '"', '`'], ['`', '"', '\\', None, '"', '`'], ['"', '\\', 'u', ('set', '0dD'), ('set', '08cC'), ('set', '0aF'), ('set', '019'), '"'],
               ['`', '[', None, ']', '`'], ['`', None, None, '`'], ['`', ' ', None, ' ', '`'], ['`', '\\', '`', None, '`'], ["'", '\\', "'", None, "'"]]
+    # escape-heavy contents: every string of <= 5 characters over {backslash, the delimiter, a letter} between the delimiters (and unterminated)
+    for q in ["'", '"', '`']:
+        alpha = ('set', '\\' + q + 'a')
+        for n in (3, 4, 5): specs.append([q] + [alpha] * n + [q])
+        specs.append([q] + [alpha] * 4)
     specs = [s for s in specs if s]
     LJ.run_sharded(run, PROG, specs, 'mirsym: delimited lexemes with symbolic content vs reference lexer', keyprefix='c09')
+    import time as _t
+    run.deadline = max(run.deadline, _t.time() + (60 if run.tier == 'quick' else 900))      # each phase gets its own slice of the budget
     jobs = [('spell', f, n, run.deadline) for f in ('raw', 'quoted', 'literal-string') for n in range(0, L + 1)] + [('field', run.deadline)]
     run_jobs(run, jobs, task, 'mirsym: spelling round trips and identifier selection')
     run.cands = [c for c in run.cands if c['key'].startswith(('c09:', 'c05:'))]
